@@ -142,6 +142,25 @@ add("C01", "TLC exhaustive on OpAlgebra.tla (operator expressions as SSA program
     "non-advertised modes, untouched input.",
     TRUST + "domains of <=4 pixels; an expression that advertises more than the rule after simplification is accepted if it acts correctly.")
 
+add("C12", "TLC on LikelihoodRe.tla (exact rational Fisher matrices of every nifty.re likelihood, pulled back, summed and frozen) + replay of every instance into nifty.re (metric, left/right square root, transformation)",
+    "The Fisher information of Gaussian, Student-t, Poisson, categorical, variable-covariance Gaussian / Student-t and the N-dimensional variable-covariance "
+    "Gaussian (covariance and precision parametrisation) at rational points is transcribed into TLA+ over exact rationals, together with the composition "
+    "laws (pull-back through integer linear models, sums of likelihoods sharing parameters, freezing a point estimate); TLC enumerates 148 instances and "
+    "checks symmetry and non-negative diagonals. Every instance is built with nifty.re (three ways of passing the Gaussian covariance) and the dense "
+    "matrices of metric, left_sqrt_metric and right_sqrt_metric (on the DECLARED tangent space) are compared: M = Fisher, M = L R, R = L^H; L = Jt^H for "
+    "the exact transformations (also amended), E_data[Jt^H Jt] = M by exact moment substitution for the variable-covariance Gaussian; batched rows "
+    "along either axis and dict-shaped data must give the block-diagonal matrix of the per-row spec matrices.",
+    TRUST + "float comparison 1e-10 relative.")
+add("C13", "TLC exhaustive on OpAlgebra.tla (sampling obligations sf/si, PSD law) + exact covariance of draw_sample by unit excitations through Random.normal for every emitted program; SamplingEnabler by numerical inversion",
+    "OpAlgebra.tla carries for every operator expression whether it MUST be able to draw a sample forward / from its inverse (positive scalings, diagonals, "
+    "partial diagonals and complete block diagonals with a sampling dtype; sums of such forward only; sandwiches through the bun; adjoints keep, inverses "
+    "swap) and whether its matrix is Hermitian PSD; TLC checks SampLaw and PsdLaw. Every program (quick: <=2 slots + 600 simulated 3-slot; thorough: all "
+    "<=3 slots) is built with sampling dtype float64 / complex128 / none and draw_sample is turned into its exact linear map from white noise by feeding "
+    "unit excitations through nifty.cl.random.Random.normal: L L^H must equal the operator (its inverse for from_inverse; twice that for complex draws, "
+    "the library's convention), the zero excitation must give zero, an operator that must sample must not refuse and nothing that is not a Hermitian "
+    "PSD matrix may return a sample. SamplingEnabler(A, B) must draw from (A+B)^-1 to the solver tolerance.",
+    TRUST + "no Monte Carlo: the sample is linear in the noise; domains of <=4 pixels.")
+
 
 def main():
     props = [json.loads(l) for l in open(os.path.join(HERE, "properties.jsonl"))]
